@@ -191,6 +191,20 @@ def coq_prove(ctx, prop_file, theorems):
     return ok
 
 
+def coq_prove_multi(ctx, parts):
+    """Several theorem files for one property: parts = [(file, [theorems]), ...]."""
+    ok, obl, dis, fail, log = True, [], [], [], ""
+    for f, thms in parts:
+        r = coq_prove(ctx, f, thms)
+        ok = ok and r
+        obl += ctx.proof["obligations"]
+        dis += ctx.proof["discharged"]
+        fail += ctx.proof["failed"]
+        log += ctx.proof["log"][-1500:]
+    ctx.proof = {"obligations": obl, "discharged": dis, "failed": fail, "log": log}
+    return ok
+
+
 def coqchk(ctx, modules):
     with Lock("coq"):
         rc, out = sh(["coqchk", "-silent", "-o", "-Q", ".", "LLF"] + modules, cwd=COQ, timeout=3000)
